@@ -275,11 +275,37 @@ func genRegex() {
 	writeIfChanged("GenRegex.v", b.Bytes())
 }
 
+// generators is filled by the init functions of the gen_*.go files.
+var generators = []func(){genRegex}
+
+// coqBytes renders a byte string as a Coq term of type bytes: printable ASCII without
+// double quotes as B "...", anything else as an explicit list (DESIGN F.5).
+func coqBytes(s string) string {
+	printable := true
+	for i := 0; i < len(s); i++ {
+		if s[i] < 0x20 || s[i] > 0x7e || s[i] == '"' {
+			printable = false
+		}
+	}
+	if printable {
+		return "(B \"" + s + "\")"
+	}
+	var parts []string
+	for i := 0; i < len(s); i++ {
+		parts = append(parts, fmt.Sprint(int(s[i])))
+	}
+	return "[" + strings.Join(parts, "; ") + "]"
+}
+
+const genHeader = "(* GENERATED by harness/cmd/gen from /repo's working tree. Do not edit. *)\nFrom V Require Import lib.Base.\nLocal Open Scope N_scope.\n\n"
+
 func main() {
 	if len(os.Args) != 2 {
 		fmt.Fprintln(os.Stderr, "usage: gen <outdir>")
 		os.Exit(2)
 	}
 	outdir = os.Args[1]
-	genRegex()
+	for _, g := range generators {
+		g()
+	}
 }
